@@ -290,7 +290,12 @@ func init() {
 		NoThreads:   true,
 		Rule:        "5 histories (period 1 on disk + period 2 in memory for 4 keys; keys split between disk and memory; memory only; everything on disk with an empty memstore; empty table) × includeMemStore {true,false} × every placement of one and every ordered pair (quick) / additionally every ordered triple (thorough) of interfering events {insert into the next undelivered key at the same / a newer / an older period, insert into a delivered key, new key, FlushAll, insert+FlushAll, ApplySchema} at every position between the scan snapshot and the delivery of each key; every event runs to exact quiescence inside the scan's row callback; oracle: every delivered row equals the reference model at scan start; non-trivial = placement with at least one insert before the last delivery",
 		Assumptions: []string{"the disk-only scan is a control: it must be just as stable", "positions are between keys: the flat rows of one key are derived from a single in-memory snapshot of that key"},
-		Shards:      func(tier string) int { return 8 },
+		Shards: func(tier string) int {
+			if tier == "thorough" {
+				return 32 // short-lived workers: every closed zenodb instance leaves goroutines and buffers behind
+			}
+			return 8
+		},
 		Budget: func(tier string) time.Duration {
 			if tier == "thorough" {
 				return 90 * time.Minute
